@@ -76,6 +76,8 @@ def check(model: Model, run: Run) -> None:
                                  f"{model.relpath(SCHEMA)}:{e.line}", [e.short()]))
     if mr.unknown_calls:
         raise AnalysisError("unresolved call sites on the schema from_string paths: " + "; ".join(sorted(set(mr.unknown_calls))[:5]))
+    space_tolerant_extraction(model, run)
+    extension_cut_positions(model, run)
     unescape_single_pass(model, run)
 
 
@@ -88,3 +90,78 @@ def pattern_of_match_var(model: Model, fi, var: str):
                     return norm(c.args[0])
                 return norm(c.func.value)
     return None
+
+
+def space_tolerant_extraction(model: Model, run: Run) -> None:
+    """G4: the string cutting that follows the regex match tolerates every spacing the regex accepted (SP = 1*SPACE,
+    WSP = 0*SPACE): typestate analysis `cannot start with a space` over from_string and the helpers it reaches."""
+    from ..anchors import reachable
+    from ..strnorm import analyse
+    fns = {}
+    for cname in CLASSES:
+        fi = model.func(f"{SCHEMA}.{cname}.from_string")
+        fns[fi.qualname] = fi
+        for f in reachable(model, fi, SCHEMA):
+            fns[f.qualname] = f
+    n_ob = 0
+    mfuncs = {f.name: f.node for f in fns.values() if f.cls is None and isinstance(f.node, ast.FunctionDef)}
+    # pass 1: what every caller hands to the module-level helpers
+    seen_args = {}
+    for q, fi in sorted(fns.items()):
+        if isinstance(fi.node, ast.Lambda):
+            continue
+        a0 = analyse(fi.node, q, mfuncs)
+        for h, lst in a0.call_args.items():
+            seen_args.setdefault(h, []).extend(lst)
+    for q, fi in sorted(fns.items()):
+        if isinstance(fi.node, ast.Lambda):
+            continue
+        ps = None
+        if fi.cls is None and fi.name in seen_args:
+            names = [x.arg for x in fi.node.args.args]
+            ps = {nm: all(args[i] for args in seen_args[fi.name] if i < len(args)) for i, nm in enumerate(names)}
+        a = analyse(fi.node, q, mfuncs, ps)
+        n_ob += a.obligations
+        for _ in range(a.obligations - len(a.violations)):
+            run.ob("G4-space-tolerant-extraction", True)
+        for site, why in a.violations:
+            run.ob("G4-space-tolerant-extraction", False, {"function": q.split(".")[-1], "why": why})
+            run.fail(Finding("G4-space-tolerant-extraction", q, norm(site)[:80], f"{q.split('.')[-1]}: {why}: a definition with more than one space at this point is accepted by the regular "
+                             "expression (SP = 1*SPACE) but cut apart wrongly or rejected", model.loc(SCHEMA, site)))
+    run.floor("positional inspections of cut strings in the schema extraction", n_ob, 6)
+
+
+def extension_cut_positions(model: Model, run: Run, rule: str = "G5-no-delimiter-search-across-quoted-values") -> None:
+    """G5: grammar-position typestate over the extension parser (the function from_string applies to the `extensions`
+    group, with its helpers): no delimiter other than the quote is searched for while quoted text may lie ahead."""
+    from ..anchors import reachable
+    from ..rx.sites import group_accesses
+    from ..strnorm import K as KPOS, PosAnalysis, PosState
+    n_search = 0
+    seen = set()
+    for cname in CLASSES:
+        fi = model.func(f"{SCHEMA}.{cname}.from_string")
+        ext_nodes = {id(c) for c, _, g in group_accesses(fi.node) if g == "extensions"}
+        ext_vars = {t.id for n in ast.walk(fi.node) if isinstance(n, ast.Assign) and id(n.value) in ext_nodes for t in n.targets if isinstance(t, ast.Name)}
+        target = None
+        for n in ast.walk(fi.node):
+            if isinstance(n, ast.Call) and isinstance(n.func, ast.Name) and n.args and ((isinstance(n.args[0], ast.Name) and n.args[0].id in ext_vars) or id(n.args[0]) in ext_nodes):
+                q = model.resolve_name(SCHEMA, n.func.id)
+                if q in model.functions:
+                    target = model.functions[q]
+        if target is None:
+            raise AnalysisError(f"{cname}.from_string: the function applied to the `extensions` group was not found")
+        if target.qualname in seen:
+            continue
+        seen.add(target.qualname)
+        mfuncs = {f.name: f.node for f in reachable(model, target, SCHEMA) if f.cls is None and isinstance(f.node, ast.FunctionDef)}
+        p0 = target.params()[0]
+        a = PosAnalysis(target.node, target.qualname, {p0: PosState(KPOS)}, mfuncs)
+        a.run()
+        n_search += a.searches
+        for _ in range(a.searches):
+            run.ob(rule, True)
+        for site, why in a.violations:
+            run.ob(rule, False, {"function": target.name, "why": why[:120]})
+            run.fail(Finding(rule, target.qualname, norm(site)[:80], f"{target.name}: {why}", model.loc(SCHEMA, site)))
+    run.floor("delimiter searches at a known grammar position in the extension parser", n_search, 2)
